@@ -24,13 +24,27 @@
 (* handshake with notifications/initialized in the same step), badinit        *)
 (* (initialize that fails), call (a tool that returns at once), slow (a tool  *)
 (* that runs until EndPost opens its gate, so the POST stays in progress).    *)
+(*                                                                            *)
+(* Environment fault: the EventStore configured in StreamableHTTPOptions.     *)
+(* `store` is "up" (no store, or a store that answers) or one of the fault    *)
+(* modes in StoreModes that the harness can switch on and off between steps:  *)
+(*   "nopurge"  SessionClosed (and Append) report an error: a backing store   *)
+(*              that cannot purge or write                                    *)
+(*   "down"     Open, Append and SessionClosed all report an error            *)
+(* SessionClosed is called when a session is terminated, by whatever path.    *)
+(* Its answer is deliberately NOT read by Die / TimeoutClose / TimeoutCallback*)
+(* below: termination makes the session dead and forgotten whatever the store *)
+(* answers.  A store whose Open fails cannot start a stream: a POST that      *)
+(* carries a call is answered 500 (it passed the session lookup, so it still  *)
+(* counts as activity for the idle timer), and no session can be created.     *)
 EXTENDS Integers, Sequences, FiniteSets, TLC
 
 CONSTANTS MaxSess,    \* ids the server may mint in one history
           T,          \* idle timeout in ticks; 0 = SessionTimeout unset
           Stateless,  \* StreamableHTTPOptions.Stateless
           MaxSlots,   \* slow POSTs in progress at the same time
-          MaxParked   \* DELETEs waiting on one closing session
+          MaxParked,  \* DELETEs waiting on one closing session
+          StoreModes  \* fault modes of the configured EventStore, subset of {"nopurge", "down"}
 
 Users   == {"none", "A", "B"}
 Ids     == 1..MaxSess
@@ -43,10 +57,11 @@ VARIABLES tab,     \* [Ids -> session record]
           nmint,   \* ids minted so far
           slot,    \* [Slots -> slow POST in progress]
           tiewin,  \* time was advanced exactly to a deadline without letting the timer run first
+          store,   \* "up", or the fault mode the configured EventStore is in
           res,     \* completions produced by the last step (output)
           ranNow,  \* tool handlers started by the last step (output)
           bad      \* ghost: a timeout closed a session under a POST admitted strictly before the deadline
-vars == <<tab, nmint, slot, tiewin, res, ranNow, bad>>
+vars == <<tab, nmint, slot, tiewin, store, res, ranNow, bad>>
 
 \* pdel: DELETEs waiting for this (closing) session to die
 FreeSess == [st |-> "free", owner |-> "none", refs |-> 0, tmr |-> "nil", rem |-> 0, cb |-> FALSE,
@@ -96,15 +111,22 @@ Die(i, first) ==
   /\ res' = first \o DieCmps(i)
 
 Init == /\ tab = [i \in Ids |-> FreeSess] /\ nmint = 0 /\ slot = [p \in Slots |-> FreeSlot]
-        /\ tiewin = FALSE /\ res = <<>> /\ ranNow = 0 /\ bad = FALSE
+        /\ tiewin = FALSE /\ store = "up" /\ res = <<>> /\ ranNow = 0 /\ bad = FALSE
 
-Step == HarnessOK /\ tiewin' = FALSE /\ UNCHANGED bad
+Step == HarnessOK /\ tiewin' = FALSE /\ UNCHANGED <<bad, store>>
+
+\* the answers of the configured EventStore that the handler's behaviour depends on
+OpenFails == store = "down"
+\* (SessionClosed fails in both fault modes; no action reads that: see Die)
 
 -----------------------------------------------------------------------------
 \* POST
 
 PostCreate(body, user) ==   \* no Mcp-Session-Id: a session is created whatever the body is
-  IF body \in {"init", "badinit"}
+  IF OpenFails   \* Server.Connect fails on the standalone stream: no session, no id
+  THEN /\ res' = <<Cmp("POST", body, NoId, user, "none", 500, 0, FALSE, FALSE)>>
+       /\ ranNow' = 0 /\ UNCHANGED <<tab, nmint, slot>>
+  ELSE IF body \in {"init", "badinit"}
   THEN /\ nmint < MaxSess
        /\ nmint' = nmint + 1
        /\ IF body = "init"
@@ -125,21 +147,28 @@ PostReject(body, tgt, user) ==
   /\ res' = <<Cmp("POST", body, tgt, user, Class(tgt, user), LookupStatus(tgt, user), 0, FALSE, FALSE)>>
   /\ ranNow' = 0 /\ UNCHANGED <<tab, nmint, slot>>
 
+\* the store cannot open a stream for the call: 500 after the lookup, startPOST and endPOST
+PostNoStream(body, i, user) ==
+  /\ OpenFails /\ LookupStatus(i, user) = 0 /\ tab[i].st \in {"live", "closing"}
+  /\ tab' = [tab EXCEPT ![i] = Touch(tab[i])]
+  /\ res' = <<Cmp("POST", body, i, user, "live", 500, 0, FALSE, FALSE)>>
+  /\ ranNow' = 0 /\ UNCHANGED <<nmint, slot>>
+
 PostFast(body, i, user) ==   \* answered within the step: tool call, or a repeated initialize (JSON-RPC error)
-  /\ body # "slow" /\ LookupStatus(i, user) = 0 /\ tab[i].st = "live"
+  /\ ~OpenFails /\ body # "slow" /\ LookupStatus(i, user) = 0 /\ tab[i].st = "live"
   /\ tab' = [tab EXCEPT ![i] = Touch(tab[i])]
   /\ res' = <<Cmp("POST", body, i, user, "live", 200, IF body = "call" THEN 0 ELSE i, FALSE, body = "call")>>
   /\ ranNow' = IF body = "call" THEN 1 ELSE 0
   /\ UNCHANGED <<nmint, slot>>
 
 PostSlow(i, user) ==   \* admitted; stays in progress until EndPost
-  /\ LookupStatus(i, user) = 0 /\ tab[i].st = "live" /\ HasFreeSlot
+  /\ ~OpenFails /\ LookupStatus(i, user) = 0 /\ tab[i].st = "live" /\ HasFreeSlot
   /\ tab' = [tab EXCEPT ![i] = [StartPOST(tab[i]) EXCEPT !.run = tab[i].run + 1]]
   /\ slot' = [slot EXCEPT ![SmallestFree] = [id |-> i, tie |-> (tab[i].cb \/ Due(i))]]
   /\ res' = <<>> /\ ranNow' = 1 /\ UNCHANGED nmint
 
 PostClosing(body, i, user) ==   \* the session is being closed: every call is refused with a JSON-RPC error
-  /\ LookupStatus(i, user) = 0 /\ tab[i].st = "closing"
+  /\ ~OpenFails /\ LookupStatus(i, user) = 0 /\ tab[i].st = "closing"
   /\ tab' = [tab EXCEPT ![i] = Touch(tab[i])]
   /\ res' = <<Cmp("POST", body, i, user, "live", 200, IF body \in {"init", "badinit"} THEN i ELSE 0, FALSE, FALSE)>>
   /\ ranNow' = 0 /\ UNCHANGED <<nmint, slot>>
@@ -162,6 +191,7 @@ Post(body, tgt, user) ==
           \/ (tgt \in Minted /\ PostFast(body, tgt, user))
           \/ (tgt \in Minted /\ body = "slow" /\ PostSlow(tgt, user))
           \/ (tgt \in Minted /\ PostClosing(body, tgt, user))
+          \/ (tgt \in Minted /\ PostNoStream(body, tgt, user))
 
 -----------------------------------------------------------------------------
 \* GET (standalone stream; the client disconnects as soon as the stream is established), DELETE
@@ -170,7 +200,9 @@ Get(tgt, user) ==
   /\ Step
   /\ res' = <<Cmp("GET", "", tgt, user, Class(tgt, user),
                   IF Stateless THEN 405 ELSE IF tgt = NoId THEN 400
-                  ELSE IF LookupStatus(tgt, user) # 0 THEN LookupStatus(tgt, user) ELSE 200,
+                  ELSE IF LookupStatus(tgt, user) # 0 THEN LookupStatus(tgt, user)
+                  ELSE IF OpenFails THEN 400   \* After fails as well: "failed to replay events", never 404
+                  ELSE 200,
                   0, FALSE, FALSE)>>
   /\ ranNow' = 0 /\ UNCHANGED <<tab, nmint, slot>>
 
@@ -234,13 +266,13 @@ AdvanceTie(dt) ==
                            ELSE IF tab[i].rem < dt THEN TimeoutClose(tab[i])
                            ELSE [tab[i] EXCEPT !.rem = @ - dt]]
   /\ tiewin' = TRUE
-  /\ res' = <<>> /\ ranNow' = 0 /\ UNCHANGED <<nmint, slot, bad>>
+  /\ res' = <<>> /\ ranNow' = 0 /\ UNCHANGED <<nmint, slot, bad, store>>
 
 \* the runtime fires the timer: the callback goroutine exists but has not run; Stop() now reports false
 TimerFire(i) ==
   /\ Due(i)
   /\ tab' = [tab EXCEPT ![i].tmr = "off", ![i].cb = TRUE]
-  /\ UNCHANGED <<nmint, slot, tiewin, res, ranNow, bad>>
+  /\ UNCHANGED <<nmint, slot, tiewin, store, res, ranNow, bad>>
 
 \* the callback runs: sessInfo.session.Close()
 TimeoutCallback(i) ==
@@ -250,7 +282,14 @@ TimeoutCallback(i) ==
                                 THEN (IF tab[i].run = 0 THEN DeadSess(tab[i].owner)
                                       ELSE [tab[i] EXCEPT !.st = "closing", !.cb = FALSE])
                                 ELSE [tab[i] EXCEPT !.cb = FALSE]]
-  /\ UNCHANGED <<nmint, slot, tiewin, res, ranNow>>
+  /\ UNCHANGED <<nmint, slot, tiewin, store, res, ranNow>>
+
+\* the environment: the configured EventStore enters or leaves a fault mode (between steps, settled)
+SetStore(m) ==
+  /\ HarnessOK /\ ~tiewin /\ ~Stateless
+  /\ m \in StoreModes \cup {"up"} /\ m # store
+  /\ store' = m
+  /\ res' = <<>> /\ ranNow' = 0 /\ UNCHANGED <<tab, nmint, slot, tiewin, bad>>
 
 -----------------------------------------------------------------------------
 Targets == {NoId, Unknown} \cup Ids
@@ -263,6 +302,7 @@ HarnessNext ==
   \/ \E p \in Slots : EndPost(p)
   \/ \E i \in Ids : Close(i)
   \/ \E d \in AdvSet : Advance(d)
+  \/ \E m \in StoreModes \cup {"up"} : SetStore(m)
 
 Next ==
   \/ HarnessNext
@@ -293,6 +333,9 @@ AtMostOneSession == [][\A i \in Ids : tab[i].st # "free" => tab'[i].st # "free" 
 
 DeadStaysDead == \A c \in Range(res) : c.cls = "stale" => c.status = 404 /\ ~c.ran /\ c.sid = 0
 DeadForever == [][\A i \in Ids : tab[i].st = "dead" => tab'[i].st = "dead"]_vars
+\* ... whatever the configured EventStore answers: a completed DELETE leaves its target dead in every
+\* store mode, and no response ever depends on the store for an id that is dead
+DeleteKills == [][\A c \in Range(res') : (c.m = "DELETE" /\ c.status = 204) => tab'[c.tgt].st = "dead"]_vars
 
 UserBound == \A c \in Range(res) : c.cls = "foreign" => c.status = 403 /\ ~c.ran /\ c.sid = 0
 
